@@ -1025,6 +1025,255 @@ Example gf_polymod_test_vector :
   gf_polymod (hrp_expand (codes "a") ++ map (fun x => find x CHARSET) (codes "2uel5l")) = [0; 0; 0; 0; 0; 1].
 Proof. vm_compute. reflexivity. Qed.
 
+(* ================================================================= F. substitution in the human-readable part *)
+Lemma Lpow_bound k : forall e, e < 2 ^ 30 -> Lpow k e < 2 ^ 30.
+Proof. induction k as [|k IH]; intros e He; cbn [Lpow]; [assumption|]. apply IH. now apply L_bound. Qed.
+Lemma Lpow_lin k : forall a b, a < 2 ^ 30 -> b < 2 ^ 30 -> Lpow k (N.lxor a b) = N.lxor (Lpow k a) (Lpow k b).
+Proof.
+  induction k as [|k IH]; intros a b Ha Hb; cbn [Lpow]; [reflexivity|].
+  rewrite L_lin by assumption. apply IH; now apply L_bound.
+Qed.
+Lemma Lpow_add a : forall b e, Lpow (a + b) e = Lpow a (Lpow b e).
+Proof.
+  induction a as [|a IH]; intros b e; [reflexivity|]. cbn [Nat.add Lpow].
+  rewrite IH. f_equal. clear. revert e. induction b as [|b IHb]; intros e; cbn [Lpow]; [reflexivity|]. now rewrite IHb.
+Qed.
+
+Fixpoint iter_ok (n : nat) (v : N) : bool :=
+  match n with O => true | S n' => negb (bad_delta v) && iter_ok n' (L v) end.
+Lemma iter_ok_spec n : forall v, iter_ok n v = true -> forall k, (k < n)%nat -> bad_delta (Lpow k v) = false.
+Proof.
+  induction n as [|n IH]; intros v H k Hk; [lia|]. cbn [iter_ok] in H. apply andb_true_iff in H as [H0 H1].
+  destruct k as [|k]; cbn [Lpow]; [now apply negb_true_iff in H0|]. apply IH; [assumption | lia].
+Qed.
+
+(* a character of the prefix enters polymod twice (x >> 5 at distance d = |hrp| + 1 before x & 31):
+   for every d <= 103, every pair of differences (e1 < 4, e2 < 32) not both zero and every distance k < 108 from the end *)
+Definition HRP_D : nat := 102.
+Definition pair_table_check (D : nat) (l1 l2 : list N) : bool :=
+  forallb (fun d => forallb (fun e1 => forallb (fun e2 =>
+     if (e1 =? 0) && (e2 =? 0) then true else iter_ok 108 (N.lxor (Lpow d e1) e2)) l2) l1) (seq 2 D).
+Lemma pair_error_table : pair_table_check HRP_D [0; 1; 2; 3] all32 = true.
+Proof. vm_compute. reflexivity. Qed.
+Lemma pair_table_gen D l1 l2 : pair_table_check D l1 l2 = true ->
+  forall d e1 e2 k, (2 <= d < 2 + D)%nat -> In e1 l1 -> In e2 l2 -> (k < 108)%nat -> (e1 <> 0 \/ e2 <> 0) ->
+  bad_delta (Lpow k (N.lxor (Lpow d e1) e2)) = false.
+Proof.
+  unfold pair_table_check. intros H d e1 e2 k Hd H1 H2 Hk Hne.
+  rewrite forallb_forall in H. specialize (H d ltac:(apply in_seq; lia)).
+  rewrite forallb_forall in H. specialize (H e1 H1). rewrite forallb_forall in H. specialize (H e2 H2).
+  destruct ((e1 =? 0) && (e2 =? 0)) eqn:Z; [lia|]. now apply (iter_ok_spec 108).
+Qed.
+
+Lemma pair_table_use d e1 e2 k : (2 <= d < 104)%nat -> e1 < 4 -> e2 < 32 -> (k < 108)%nat -> (e1 <> 0 \/ e2 <> 0) ->
+  bad_delta (Lpow k (N.lxor (Lpow d e1) e2)) = false.
+Proof.
+  intros Hd H1 H2 Hk Hne. apply (pair_table_gen HRP_D [0; 1; 2; 3] all32 pair_error_table); try assumption.
+  - assert (E : e1 = 0 \/ e1 = 1 \/ e1 = 2 \/ e1 = 3) by lia. destruct E as [E|[E|[E|E]]]; subst e1; cbn; tauto.
+  - now apply in_all32.
+Qed.
+
+(* ---------- the theorem ---------- *)
+Definition hi5 (x : N) : N := N.shiftr x 5.
+Definition lo5 (x : N) : N := N.land x 31.
+Lemma hi5_lt x : x < 128 -> hi5 x < 4.
+Proof. intros H. unfold hi5. rewrite N.shiftr_div_pow2. apply N.div_lt_upper_bound; [easy|]. change (2 ^ 5 * 4) with 128. exact H. Qed.
+Lemma lo5_lt x : lo5 x < 32.
+Proof. apply land31_lt. Qed.
+Ltac Zify.zify_post_hook ::= Z.to_euclidean_division_equations.
+Lemma hi_lo_inj x y : hi5 x = hi5 y -> lo5 x = lo5 y -> x = y.
+Proof.
+  unfold hi5, lo5. change 31 with (N.ones 5). rewrite !N.land_ones, !N.shiftr_div_pow2. change (2 ^ 5) with 32. lia.
+Qed.
+
+Lemma hrp_expand_split pre x post :
+  hrp_expand (pre ++ x :: post) =
+  map hi5 pre ++ hi5 x :: (map hi5 post ++ [0] ++ map lo5 pre) ++ lo5 x :: map lo5 post.
+Proof.
+  unfold hrp_expand. fold hi5. change (fun x => N.land x 31) with lo5.
+  rewrite !map_app, !map_cons, <- !app_assoc. cbn [app]. reflexivity.
+Qed.
+
+Lemma small_map_hi l : Forall (fun x => x < 128) l -> small (map hi5 l).
+Proof.
+  intros H. apply Forall_forall. intros v Hv. apply in_map_iff in Hv as (x & <- & Hx).
+  eapply Forall_forall in H; [|exact Hx]. cbn in H. pose proof (hi5_lt x H). change (2 ^ 30) with 1073741824. lia.
+Qed.
+Lemma small_map_lo l : small (map lo5 l).
+Proof.
+  apply Forall_forall. intros v Hv. apply in_map_iff in Hv as (x & <- & Hx).
+  pose proof (lo5_lt x). change (2 ^ 30) with 1073741824. lia.
+Qed.
+
+(* polymod after replacing prefix character x by y *)
+Lemma polymod_hrp_subst pre x y post data :
+  Forall (fun v => v < 128) pre -> Forall (fun v => v < 128) post -> x < 128 -> y < 128 -> small data ->
+  bech32_polymod (hrp_expand (pre ++ y :: post) ++ data) =
+  N.lxor (bech32_polymod (hrp_expand (pre ++ x :: post) ++ data))
+         (Lpow (length post + length data)
+               (N.lxor (Lpow (length pre + length post + 2) (N.lxor (hi5 x) (hi5 y))) (N.lxor (lo5 x) (lo5 y)))).
+Proof.
+  intros Hpre Hpost Hx Hy Hd. rewrite !hrp_expand_split.
+  set (A := map hi5 pre). set (B := map hi5 post ++ [0] ++ map lo5 pre). set (C := map lo5 post).
+  assert (HA : small A) by now apply small_map_hi.
+  assert (HB : small B).
+  { apply small_app; [now apply small_map_hi | apply small_app; [repeat constructor | apply small_map_lo]]. }
+  assert (HC : small C) by apply small_map_lo.
+  assert (Hh : forall z, z < 128 -> hi5 z < 2 ^ 30) by (intros z Hz; pose proof (hi5_lt z Hz); change (2 ^ 30) with 1073741824; lia).
+  assert (Hl : forall z, lo5 z < 2 ^ 30) by (intros z; pose proof (lo5_lt z); change (2 ^ 30) with 1073741824; lia).
+  (* step 1: high part *)
+  replace ((A ++ hi5 y :: B ++ lo5 y :: C) ++ data) with (A ++ hi5 y :: (B ++ lo5 y :: C ++ data))
+    by (rewrite <- !app_assoc; cbn [app]; now rewrite <- !app_assoc).
+  rewrite (polymod_subst A (hi5 x) (hi5 y)); auto.
+  2:{ apply small_app; [assumption|]. constructor; [apply Hl | now apply small_app]. }
+  (* step 2: low part *)
+  replace (A ++ hi5 x :: B ++ lo5 y :: C ++ data) with ((A ++ hi5 x :: B) ++ lo5 y :: (C ++ data))
+    by (rewrite <- !app_assoc; cbn [app]; reflexivity).
+  rewrite (polymod_subst (A ++ hi5 x :: B) (lo5 x) (lo5 y)); auto.
+  2:{ apply small_app; [assumption|]. constructor; [now apply Hh | assumption]. }
+  2:{ now apply small_app. }
+  replace ((A ++ hi5 x :: B) ++ lo5 x :: C ++ data) with ((A ++ hi5 x :: B ++ lo5 x :: C) ++ data)
+    by (rewrite <- !app_assoc; cbn [app]; now rewrite <- !app_assoc).
+  rewrite N.lxor_assoc. f_equal.
+  set (e1 := N.lxor (hi5 x) (hi5 y)). set (e2 := N.lxor (lo5 x) (lo5 y)).
+  assert (He1 : e1 < 2 ^ 30) by (apply lxor_lt_pow2; now apply Hh).
+  assert (He2 : e2 < 2 ^ 30) by (apply lxor_lt_pow2; apply Hl).
+  rewrite Lpow_lin; [| now apply Lpow_bound | assumption].
+  rewrite N.lxor_comm. f_equal.
+  - rewrite <- Lpow_add. f_equal.
+    subst A B C. rewrite !app_length, !map_length. cbn [length]. rewrite !app_length, !map_length. cbn [length]. lia.
+  - f_equal. subst C. now rewrite app_length, map_length.
+Qed.
+
+Lemma valid_xor_not_bad c delta : is_valid_const c = true -> bad_delta delta = false ->
+  is_valid_const (N.lxor c delta) = false.
+Proof.
+  intros Hc T. unfold bad_delta in T.
+  apply orb_false_iff in T as [T0 T1]. apply N.eqb_neq in T0, T1.
+  unfold is_valid_const in *. apply orb_true_iff in Hc.
+  apply orb_false_iff. split; apply N.eqb_neq; intros E.
+  - destruct Hc as [Hc|Hc]; apply N.eqb_eq in Hc; subst c.
+    + apply T0. apply (f_equal (N.lxor BECH32_CONST)) in E.
+      rewrite <- N.lxor_assoc, !N.lxor_nilpotent, N.lxor_0_l in E. exact E.
+    + apply T1. apply (f_equal (N.lxor BECH32M_CONST)) in E.
+      rewrite <- N.lxor_assoc, !N.lxor_nilpotent, N.lxor_0_l in E. rewrite E. apply N.lxor_comm.
+  - destruct Hc as [Hc|Hc]; apply N.eqb_eq in Hc; subst c.
+    + apply T1. apply (f_equal (N.lxor BECH32_CONST)) in E.
+      rewrite <- N.lxor_assoc, !N.lxor_nilpotent, N.lxor_0_l in E. exact E.
+    + apply T0. apply (f_equal (N.lxor BECH32M_CONST)) in E.
+      rewrite <- N.lxor_assoc, !N.lxor_nilpotent, N.lxor_0_l in E. exact E.
+Qed.
+
+Lemma subst_app_l (h rest : str) i c : (i < length h)%nat -> subst i c (h ++ rest) = subst i c h ++ rest.
+Proof.
+  intros Hi. unfold subst. rewrite firstn_app, skipn_app.
+  replace (i - length h)%nat with 0%nat by lia. replace (S i - length h)%nat with 0%nat by lia.
+  cbn [firstn skipn]. rewrite app_nil_r, <- app_assoc. reflexivity.
+Qed.
+
+Lemma hrp_subst_lower_rejected s r i c p :
+  Forall (fun x => x < 128) s ->
+  bech32_decode_lower s = Some r -> rfind 49 s = Some p -> (i < p)%nat ->
+  c < 128 -> c <> nth i s 0 ->
+  bech32_decode_lower (subst i c s) = None.
+Proof.
+  intros Hs H Hp Hi Hc Hcn.
+  destruct (decode_lower_inv s r H) as (h & chars & -> & Hn & Hd).
+  rewrite rfind_app_sep in Hp by assumption. injection Hp as <-.
+  rewrite app_nth1 in Hcn by assumption. rewrite subst_app_l by assumption.
+  pose proof (split_nth h i Hi) as Hh. set (x := nth i h 0) in *.
+  assert (Esub : subst i c h = firstn i h ++ c :: skipn (S i) h) by reflexivity. rewrite Esub.
+  set (pre := firstn i h) in *. set (post := skipn (S i) h) in *. clearbody x pre post. subst h. clear Esub Hi.
+  rewrite <- app_assoc. cbn [app].
+  change (pre ++ c :: post ++ 49 :: chars) with (pre ++ (c :: post) ++ 49 :: chars). rewrite app_assoc.
+  rewrite decode_lower_parts by assumption.
+  destruct (decode_parts_Some _ _ _ Hd) as (L1 & L6 & Lm & Hcs & Hv).
+  assert (Hlen : length (pre ++ c :: post) = length (pre ++ x :: post)) by (rewrite !app_length; reflexivity).
+  unfold decode_parts. rewrite Hlen.
+  destruct (_ || _ || _); [reflexivity|].
+  destruct (forallb _ chars); [|reflexivity]. cbn [negb].
+  replace (verify_checksum (pre ++ c :: post) _) with (@None encoding); [reflexivity|]. symmetry. apply verify_is_valid.
+  apply Forall_app in Hs as [Hsh _]. apply Forall_app in Hsh as [Hpre Hxpost].
+  apply Forall_cons_iff in Hxpost as [Hx Hpost].
+  rewrite (polymod_hrp_subst pre x c post); try assumption.
+  2:{ apply small_of_lt32, find_lt_all, Hcs. }
+  apply valid_xor_not_bad; [assumption|].
+  rewrite app_length in L1, Lm. cbn [length] in L1, Lm.
+  apply pair_table_use.
+  - unfold MAXLEN in *. lia.
+  - change 4 with (2 ^ 2). apply lxor_lt_pow2; apply hi5_lt; assumption.
+  - apply lxor_lt32; apply lo5_lt.
+  - rewrite map_length. unfold MAXLEN in *. lia.
+  - destruct (N.eq_dec (N.lxor (hi5 x) (hi5 c)) 0) as [E1|E1]; [|now left].
+    destruct (N.eq_dec (N.lxor (lo5 x) (lo5 c)) 0) as [E2|E2]; [|now right].
+    apply N.lxor_eq in E1, E2. exfalso. apply Hcn. symmetry. now apply hi_lo_inj.
+Qed.
+
+Lemma sep_subst_lower_rejected s r c p :
+  bech32_decode_lower s = Some r -> rfind 49 s = Some p -> ~ In 49 (firstn p s) -> c <> 49 ->
+  bech32_decode_lower (subst p c s) = None.
+Proof.
+  intros H Hp Hnh Hc.
+  destruct (decode_lower_inv s r H) as (h & chars & -> & Hn & Hd).
+  rewrite rfind_app_sep in Hp by assumption. injection Hp as <-.
+  rewrite firstn_app, firstn_all, Nat.sub_diag in Hnh. cbn [firstn] in Hnh. rewrite app_nil_r in Hnh.
+  unfold subst. rewrite firstn_app, firstn_all, Nat.sub_diag. cbn [firstn]. rewrite app_nil_r.
+  rewrite skipn_app, skipn_all2 by lia. replace (S (length h) - length h)%nat with 1%nat by lia. cbn [skipn app].
+  unfold bech32_decode_lower.
+  replace (rfind 49 (h ++ c :: chars)) with (@None nat); [reflexivity|]. symmetry. apply rfind_None.
+  intros Hin. apply in_app_or in Hin as [Hin|[Hin|Hin]]; [contradiction | congruence | contradiction].
+Qed.
+
+(* all positions: the only exclusions are the substitutions that move the separator *)
+Lemma subst_lower_rejected_any s r i c p :
+  Forall (fun x => x < 128) s ->
+  bech32_decode_lower s = Some r -> rfind 49 s = Some p -> (i < length s)%nat ->
+  c < 128 -> c <> nth i s 0 ->
+  ((p < i)%nat -> c <> 49) -> (i = p -> ~ In 49 (firstn p s)) ->
+  bech32_decode_lower (subst i c s) = None.
+Proof.
+  intros Hs H Hp Hi Hc Hcn Hd Hsep.
+  destruct (Nat.lt_trichotomy i p) as [Lt|[->|Gt]].
+  - now apply (hrp_subst_lower_rejected s r i c p).
+  - apply (sep_subst_lower_rejected s r c p); try assumption; [now apply Hsep|].
+    intros ->. apply Hcn. destruct (rfind_Some _ _ _ Hp) as (E & _ & _).
+    rewrite E at 1. rewrite app_nth2 by (rewrite firstn_length; lia).
+    rewrite firstn_length. replace (p - Nat.min p (length s))%nat with 0%nat by lia. reflexivity.
+  - apply (subst_lower_rejected s r i c p); try assumption; [lia | now apply Hd].
+Qed.
+
+Theorem single_subst_any s r p i c :
+  bech32_decode s = Some r -> rfind 49 s = Some p -> (i < length s)%nat -> c <> nth i s 0 ->
+  ((p < i)%nat -> c <> 49) -> (i = p -> ~ In 49 (firstn p s)) ->
+  bech32_decode (subst i c s) = None
+  \/ (lowerc c = lowerc (nth i s 0) /\ bech32_decode (subst i c s) = Some r).
+Proof.
+  intros H Hp Hi Hne Hc Hsep. destruct (decode_Some_facts s r H) as (Hb & Hm & Hl & _).
+  unfold bech32_decode.
+  destruct (existsb bad_char (subst i c s) || mixed_case (subst i c s)) eqn:G; [now left|].
+  apply orb_false_iff in G as [G1 G2].
+  assert (Bc : bad_char c = false).
+  { rewrite existsb_false_Forall, Forall_forall in G1. apply G1. unfold subst. apply in_or_app. right. now left. }
+  unfold lower. rewrite subst_map. fold (lower s).
+  destruct (N.eq_dec (lowerc c) (lowerc (nth i s 0))) as [E|E].
+  - right. split; [assumption|]. rewrite E, <- nth_lower.
+    rewrite subst_same by (unfold lower; rewrite map_length; lia). exact Hl.
+  - left.
+    assert (A1 : Forall (fun x => x < 128) (lower s)).
+    { rewrite existsb_false_Forall in Hb. unfold lower. apply Forall_forall. intros x Hx.
+      apply in_map_iff in Hx as (y & <- & Hy). rewrite Forall_forall in Hb. now apply lowerc_lt, Hb. }
+    assert (A2 : rfind 49 (lower s) = Some p).
+    { unfold lower. rewrite rfind_map_stable; [assumption | apply lowerc_49]. }
+    assert (A3 : (i < length (lower s))%nat) by (unfold lower; now rewrite map_length).
+    assert (A4 : (p < i)%nat -> lowerc c <> 49).
+    { intros Hpi E'. apply (proj1 (lowerc_49 c)) in E'. now apply Hc. }
+    assert (A5 : lowerc c <> nth i (lower s) 0) by (rewrite nth_lower; exact E).
+    assert (A6 : i = p -> ~ In 49 (firstn p (lower s))).
+    { intros Hip Hin. apply (Hsep Hip). unfold lower in Hin. rewrite firstn_map in Hin.
+      apply in_map_iff in Hin as (y & Ey & Hy). apply (proj1 (lowerc_49 y)) in Ey. now subst y. }
+    exact (subst_lower_rejected_any (lower s) r i (lowerc c) p A1 Hl A2 A3 (lowerc_lt c Bc) A5 A4 A6).
+Qed.
+
 (* ---------- packaging for props/C15.v ---------- *)
 Lemma single_error_table_stmt k e : (k < 120)%nat -> 0 < e < 32 ->
   Lpow k e <> 0 /\ Lpow k e <> N.lxor BECH32_CONST BECH32M_CONST.
@@ -1040,4 +1289,10 @@ Lemma single_subst_with_length s r p i c :
       \/ (lowerc c = lowerc (nth i s 0) /\ bech32_decode (subst i c s) = Some r)).
 Proof.
   intros H Hp Hi Hc Hn. split; [now apply decode_Some_facts in H | now apply single_subst with p].
+Qed.
+Lemma pair_error_table_stmt d e1 e2 k : (2 <= d < 104)%nat -> e1 < 4 -> e2 < 32 -> (k < 108)%nat -> (e1 <> 0 \/ e2 <> 0) ->
+  let delta := Lpow k (N.lxor (Lpow d e1) e2) in delta <> 0 /\ delta <> N.lxor BECH32_CONST BECH32M_CONST.
+Proof.
+  intros Hd H1 H2 Hk Hne. pose proof (pair_table_use d e1 e2 k Hd H1 H2 Hk Hne) as T. unfold bad_delta in T.
+  apply orb_false_iff in T as [T0 T1]. cbv zeta. now apply N.eqb_neq in T0, T1.
 Qed.
